@@ -4,6 +4,7 @@ package rosmar
 
 import (
 	"context"
+	"errors"
 
 	sgbucket "github.com/couchbase/sg-bucket"
 )
@@ -357,3 +358,85 @@ func Harness_C07_macroOtherXattr() {
 	verifAssert(verifBytesEq(verifObjGet(verifXattrGet(post.Xattrs, u), P[0]), verifMacroCasJSON(uint64(post.Cas))), "the CAS macro expands inside the addressed xattr")
 	verifAssert(verifBytesEq(verifXattrGet(post.Xattrs, u1), verifJSONCanon(xv1)), "an xattr that no macro addresses is stored exactly as given")
 }
+
+// WriteUpdateWithXattrs with a callback that answers in one of four ways.
+func stepWriteUpdate(mask int) {
+	k := kvBegin(mask)
+	ctx := context.Background()
+	u0, u1 := k.env.U[0], k.env.U[1]
+	verifAssume(verifAnd(validateXattrKey(u0) == nil, validateXattrKey(u1) == nil))
+	newBody := verifBytes("new")
+	verifAssume(verifAnd(newBody != nil, len(newBody) > 0))
+	xv := verifBytes("xv")
+	verifAssume(xv != nil)
+	verifPrefer(verifBytesEq(verifJSONCanon(xv), xv))
+	mode := verifChoose("cb", 4)
+	cbErr := errors.New("callback refused")
+	var shownBody []byte
+	var shownCas uint64
+	calls := 0
+	a := &xArgs{setOn: []bool{true, false}, setVal: [][]byte{xv, nil}, delOn: []bool{false, false}}
+	casOut, err := k.c.WriteUpdateWithXattrs(ctx, k.key, []string{u0, u1}, 0, nil, &sgbucket.MutateInOptions{},
+		func(doc []byte, xattrs map[string][]byte, cas uint64) (sgbucket.UpdatedDoc, error) {
+			shownBody, shownCas = doc, cas
+			calls++
+			switch mode {
+			case 0:
+				return sgbucket.UpdatedDoc{Doc: newBody, Xattrs: map[string][]byte{u0: xv}}, nil
+			case 1:
+				return sgbucket.UpdatedDoc{IsTombstone: true, Xattrs: map[string][]byte{u0: xv}}, nil
+			case 2:
+				return sgbucket.UpdatedDoc{Xattrs: map[string][]byte{u0: xv}}, nil
+			}
+			return sgbucket.UpdatedDoc{}, cbErr
+		})
+	post := k.post()
+	if k.want(pC01 | pC07) {
+		verifAssert(calls >= 1, "the callback is invoked")
+		verifAssert(verifOr(verifAnd(k.pre.Present, verifBytesEq(shownBody, k.pre.Value), shownCas == uint64(k.pre.Cas)), verifAnd(!k.pre.Present, shownBody == nil, shownCas == 0)),
+			"the callback is shown the current body and CAS")
+	}
+	if mode == 3 {
+		verifReach("callback-error")
+		verifAssert(verifAnd(err == cbErr, verifSameDB(k.env.db, k.snap)), "a WriteUpdateWithXattrs whose callback fails returns that error and changes nothing")
+		return
+	}
+	if err != nil {
+		k.failed("refused")
+		return
+	}
+	verifReach("applied")
+	if k.want(pC07 | pC01) {
+		verifAssert(casOut == uint64(post.Cas), "returned CAS is the stored CAS")
+	}
+	k.mutated(post, true)
+	switch mode {
+	case 0:
+		if k.want(pC07 | pC05 | pC01) {
+			verifAssert(verifAnd(verifBytesEq(post.Value, newBody), post.Tombstone == 0), "the callback's body is stored and the document is live")
+			verifAssert(k.xattrsAfter(a, k.pre, false, !k.pre.hasBody(), post), "the callback's xattr is set; other xattrs are intact (dropped when a tombstone is resurrected)")
+		}
+	case 1:
+		if k.want(pC07 | pC05 | pC01) {
+			verifAssert(verifAnd(post.Value == nil, post.Tombstone == 1), "a tombstoning callback leaves a tombstone")
+			verifAssert(k.xattrsAfter(a, k.pre, true, !k.pre.Present, post), "the callback's xattr is set; user xattrs are dropped, system xattrs kept")
+		}
+	case 2:
+		if k.want(pC07 | pC01) {
+			verifAssert(verifBytesEq(post.Value, k.pre.Value), "an xattr-only callback leaves the body byte-for-byte intact")
+			verifAssert(k.xattrsAfter(a, k.pre, false, !k.pre.Present, post), "the callback's xattr is set; every other xattr is intact")
+		}
+	}
+}
+
+func Harness_C07_writeUpdate() { stepWriteUpdate(pC07) }
+func Harness_C05_writeUpdate() { stepWriteUpdate(pC05) }
+func Harness_C01_writeUpdate() { stepWriteUpdate(pC01) }
+func Harness_C17_writeUpdate() { stepWriteUpdate(pC17) }
+func Harness_C08_writeUpdate() { stepWriteUpdate(pC08) }
+
+// C17: the RevNo of the live feed event is the stored revision number (event oracle of C08)
+func Harness_C17_eventSet()      { stepSet(pC08) }
+func Harness_C17_eventWriteCas() { stepWriteCas(pC08) }
+func Harness_C17_eventXattrs()   { stepXattr(pC08, xDeleteSubDocPaths) }
+func Harness_C17_eventRemove()   { stepRemove(pC08, false) }
